@@ -257,7 +257,9 @@ Definition feed_ts (c : cfg) (s : gstate) (boundary : bool) : gstate :=
      g_rtmp_cache := g_rtmp_cache s; g_flv_cache := g_flv_cache s; g_ts_cache := tc;
      g_patpmt := g_patpmt s; g_sdp := g_sdp s; g_next_sdp := g_next_sdp s; g_merge := g_merge s; g_merge_size := g_merge_size s;
      g_video_known := g_video_known s; g_subs := subs'; g_gone := g_gone s;
-     g_rec_open := g_rec_open s; g_rec := g_rec s; g_in := g_in s; g_next_rtp := g_next_rtp s; g_vcodec := g_vcodec s; g_hook := g_hook s; g_trec := g_trec s |}.
+     g_rec_open := g_rec_open s; g_rec := g_rec s; g_in := g_in s; g_next_rtp := g_next_rtp s; g_vcodec := g_vcodec s; g_hook := g_hook s; 
+     (* recordMpegts.Write(tsPackets) *)
+     g_trec := if g_in s && cf_record_ts c then rec_append (g_trec s) (LTs j) else g_trec s |}.
 
 (* ---- RTSP subscribers (feedRtpPacket, after the fixes of E1) ---- *)
 Definition rtp_pt (raw : bytes) : option N :=
@@ -345,7 +347,8 @@ Definition step (c : cfg) (s : gstate) (e : ev) : gstate :=
          g_video_known := g_video_known s; g_subs := g_subs s; g_gone := g_gone s;
          g_rec_open := cf_record_flv c;
          g_rec := if cf_record_flv c then [] :: g_rec s else g_rec s; g_in := true; g_next_rtp := g_next_rtp s; g_vcodec := g_vcodec s;
-         g_hook := if cf_hook c then ([], 0%nat) :: g_hook s else g_hook s; g_trec := g_trec s |}
+         g_hook := if cf_hook c then ([], 0%nat) :: g_hook s else g_hook s;
+         g_trec := if cf_record_ts c then [] :: g_trec s else g_trec s |}
   | EvInStop =>
       if negb (g_in s) then s else
       (* delIn: push sessions disposed and forgotten, recording closed, caches
@@ -368,7 +371,8 @@ Definition step (c : cfg) (s : gstate) (e : ev) : gstate :=
          (* sessions past their prologue get the new tables at once (fix F-08iii) *)
          g_subs := map (fun c => if ckind_eqb (c_kind c) KTs && negb (c_fresh c) then c_append c [LPat k] else c) (g_subs s);
          g_gone := g_gone s;
-         g_rec_open := g_rec_open s; g_rec := g_rec s; g_in := g_in s; g_next_rtp := g_next_rtp s; g_vcodec := g_vcodec s; g_hook := g_hook s; g_trec := g_trec s |}
+         g_rec_open := g_rec_open s; g_rec := g_rec s; g_in := g_in s; g_next_rtp := g_next_rtp s; g_vcodec := g_vcodec s; g_hook := g_hook s; 
+         g_trec := if g_in s && cf_record_ts c then rec_append (g_trec s) (LPat k) else g_trec s |}
   | EvSdp v =>
       let k := g_next_sdp s in
       {| g_next := g_next s; g_next_ts := g_next_ts s; g_next_pat := g_next_pat s;
